@@ -24,6 +24,9 @@ func newSmap(t *types.Map) *smap { return &smap{kt: t.Key()} }
 func (m *smap) len() int { return m.n }
 
 func (m *smap) access(r *run, write bool) {
+	if m != nil && len(r.pooledMap) > 0 && r.pooledMap[m] {
+		r.pooledHit()
+	}
 	if write && m != nil {
 		if label, ok := r.frozenMap[m]; ok {
 			r.frozenHit(label)
